@@ -31,7 +31,8 @@
    is the code before (the resource definition wins).
    Ghost: [w_acks] = the (topic, count) pairs acknowledged to a client (CreateTopic /
    CreatePartitions returned nil) and not explicitly deleted since.
-   Not modelled: replication-factor check (the harness always uses factor 1 with at
+   Not modelled: the topic-config key that CreatePartitions syncs after its put
+   (syncTopicConfigPartitions; no such key exists in the harness), replication-factor check (the harness always uses factor 1 with at
    least one broker in the snapshot), topic entries with a non-zero error code (never
    persisted), failures of the etcd calls themselves.  No proofs in this file. *)
 From KS Require Import lib.Base.
@@ -66,24 +67,36 @@ Inductive err := ROk | RInvalid | RExists | RUnknown.
 Definition err_code (e : err) : Z :=
   match e with ROk => 0 | RInvalid => 1 | RExists => 2 | RUnknown => 3 end.
 
-(* InMemoryStore.CreateTopic *)
-Definition create_local (s : snap) (t : bytes) (n : Z) : err * snap :=
+(* metadata.ValidTopicName: non-empty, at most 249 bytes, not "." or "..", only
+   [A-Za-z0-9._-] *)
+Definition name_char (c : Z) : bool :=
+  ((97 <=? c) && (c <=? 122)) || ((65 <=? c) && (c <=? 90)) || ((48 <=? c) && (c <=? 57)) ||
+  (c =? 46) || (c =? 95) || (c =? 45).
+
+Definition valid_name (t : bytes) : bool :=
   match t with
-  | [] => (RInvalid, s)
-  | _ => if n <=? 0 then (RInvalid, s)
-         else if mem_name s t then (RExists, s)
-         else (ROk, s ++ [(t, n)])
+  | [] => false
+  | _ => (zlen t <=? 249) && negb (bytes_eqb t [46]) && negb (bytes_eqb t [46; 46]) &&
+         forallb name_char t
   end.
 
-(* EtcdStore.CreatePartitions up to and including InMemoryStore.CreatePartitions *)
+(* InMemoryStore.CreateTopic *)
+Definition create_local (s : snap) (t : bytes) (n : Z) : err * snap :=
+  if negb (valid_name t) || (n <=? 0) then (RInvalid, s)
+  else if mem_name s t then (RExists, s)
+  else (ROk, s ++ [(t, n)]).
+
+(* EtcdStore.CreatePartitions up to and including InMemoryStore.CreatePartitions:
+   empty name / non-positive count are rejected before the lookup *)
 Definition grow_local (s : snap) (t : bytes) (n : Z) : err * snap :=
-  match count_of s t with
-  | None => (RUnknown, s)
-  | Some cur => if n <=? cur then (RInvalid, s)
-                else match t with
-                     | [] => (RInvalid, s)       (* InMemoryStore.CreatePartitions: topic == "" *)
-                     | _ => (ROk, set_first s t n)
-                     end
+  match t with
+  | [] => (RInvalid, s)
+  | _ =>
+      if n <=? 0 then (RInvalid, s)
+      else match count_of s t with
+           | None => (RUnknown, s)
+           | Some cur => if n <=? cur then (RInvalid, s) else (ROk, set_first s t n)
+           end
   end.
 
 (* EtcdStore.DeleteTopic up to and including InMemoryStore.DeleteTopic *)
